@@ -1,0 +1,25 @@
+//go:build verif
+
+package kprapi
+
+import (
+	"net/http"
+
+	"github.com/shutter-network/rolling-shutter/rolling-shutter/keyper/epochkghandler"
+	"github.com/shutter-network/rolling-shutter/rolling-shutter/medley/broker"
+)
+
+// Verification hooks (build tag "verif"): accessors used by the runtime-monitoring harness.
+
+// VerifRouter returns the router exactly as Start serves it.
+func (srv *Server) VerifRouter() http.Handler {
+	return srv.setupRouter()
+}
+
+func (srv *Server) VerifTriggerChan() chan *broker.Event[*epochkghandler.DecryptionTrigger] {
+	return srv.trigger
+}
+
+func (srv *Server) VerifShutdownChan() chan struct{} {
+	return srv.shutdownSig
+}
